@@ -181,6 +181,11 @@ def schemas(draw, features: FrozenSet[str] = BASE_FEATURES, sizes: Sizes = QUICK
     types = [st.sampled_from(plain_pool).map(lambda t: ('plain', t))] * 2
     if enums:
         types.append(st.sampled_from(enums).map(lambda e: ('enum', e.schema, e.name)))
+    # near miss: a plain type spelled like the name of an enum that lives in another schema
+    near = [e.name for e in enums if e.schema != 'public' and ('public', e.name) not in enum_keys
+            and e.name.isidentifier() and e.name.isascii()]
+    if near:
+        types.append(st.sampled_from(near).map(lambda t: ('plain', t)))
     if _has(F, 'quoted_type'):
         types.append(st.sampled_from(QUOTED_TYPES).map(lambda t: ('plain', t)))
     types = st.one_of(types)
